@@ -6,7 +6,7 @@ from vf.gen import pick_weighted
 
 ID = "C21"
 THEOREMS = ["C21_checker_sound", "C21_setobj_safe", "C21_packwrite_safe", "C21_rmref_safe", "C21_packrefs_safe",
-            "C21_prune_safe", "C21_repack_safe", "C21_sequence",
+            "C21_prune_safe", "C21_repack_safe", "C21_sequence", "C21_commit_objects_safe", "C21_commit_partial",
             "C21_setref_refuted", "C21_setref_partial", "C21_casref_refuted", "C21_casref_partial",
             "C21_setindex_refuted", "C21_setindex_partial", "C21_setconfig_refuted", "C21_setconfig_partial",
             "C21_setshallow_refuted", "C21_setshallow_partial"]
@@ -31,7 +31,7 @@ RULE = ("case = abstract repository (history with loose/packed/both placement, d
         "the operation performs at least two mutations; distinct by content")
 
 MODES = {"100644": 0o100644, "100755": 0o100755, "40000": 0o40000}
-KNOWN_WINDOW_OPS = {"setref": "ref-truncate-window", "casref": "ref-truncate-window", "setindex": "index-truncate-window",
+KNOWN_WINDOW_OPS = {"setref": "ref-truncate-window", "commit": "ref-truncate-window", "casref": "ref-truncate-window", "setindex": "index-truncate-window",
                     "setconfig": "config-torn-write", "setshallow": "shallow-truncate-window"}
 
 
@@ -132,7 +132,7 @@ def gen_case(rng, bucket):
          "threshold": False, "fsck": False, "all_states": False}
     # the operation
     ops = [(3, "setobj"), (3, "packwrite"), (4, "setref"), (3, "casref"), (3, "rmref"), (3, "packrefs"), (2, "setindex"), (2, "setconfig"),
-           (2, "setshallow"), (4, "repack"), (3, "prune")]
+           (2, "setshallow"), (4, "repack"), (3, "prune"), (3, "commit")]
     op = pick_weighted(rng, ops)
     if bucket == "stale" and stale:
         op = "rmref"
@@ -169,6 +169,41 @@ def gen_case(rng, bucket):
         c["url"] = "r%d.git" % rng.randrange(100)
     elif op == "setshallow":
         c["ids"] = list(shallow) + ([tip] if rng.random() < 0.3 else [])
+    elif op == "commit":
+        # what Worktree.Commit writes for this index: new trees bottom-up (existing ones are skipped), the commit, then the ref
+        files = [("f%d" % i, b) for i, b in enumerate(rng.sample([i for i, o in enumerate(objs) if o["k"] == "blob" and o["at"]], rng.randrange(1, 3)))]
+        sub = [("g%d" % i, b) for i, b in enumerate(rng.sample([i for i, o in enumerate(objs) if o["k"] == "blob" and o["at"]], rng.randrange(0, 2)))]
+        c["index"] = [{"path": n.encode().hex(), "ref": b, "mode": "100644"} for n, b in files] + \
+                     [{"path": ("d/" + n).encode().hex(), "ref": b, "mode": "100644"} for n, b in sub]
+        new = []
+
+        def tree_for(es):
+            es = sorted(es, key=lambda e: e[1] + ("/" if e[0] == "40000" else ""))
+            enc = [{"mode": m, "name": n.encode().hex(), "ref": r} for m, n, r in es]
+            for i, o in enumerate(objs):
+                if o["k"] == "tree" and o["entries"] == enc:
+                    if not o["at"] and i not in new:
+                        new.append(i)
+                    return i
+            i = add({"k": "tree", "entries": enc, "at": [], "old": False})
+            new.append(i)
+            return i
+        root = [("100644", n, b) for n, b in files]
+        if sub:
+            root.append(("40000", "d", tree_for([("100644", n, b) for n, b in sub])))
+        rt = tree_for(root)
+        eff = effective_refs(c)
+        if "sym" in head:
+            parent = eff.get(head["sym"])
+            c["name"] = head["sym"]
+        else:
+            parent = head["ref"]
+            c["name"] = "HEAD"
+        c["msg"] = "commit %d" % rng.randrange(10**6)
+        cm = add({"k": "commit", "tree": rt, "parents": [parent] if parent is not None else [], "msg": c["msg"], "at": [], "old": False})
+        new.append(cm)
+        c["commit_objs"] = new
+        c["ref"] = cm
     elif op in ("repack", "prune"):
         c["threshold"] = rng.random() < 0.35
         c["refdeltas"] = rng.random() < 0.3
@@ -250,6 +285,8 @@ class Main(Suite):
         val = lambda: ("RSym %s" % coq_str(c["sym"])) if c.get("sym") else "RHash %d%%N" % c["ref"]
         if op == "setobj":
             return "OpSetObj %d%%N" % c["obj"]
+        if op == "commit":
+            return "OpCommit %s %s (RHash %d%%N)" % (ids(c["commit_objs"]), coq_str(c["name"]), c["ref"])
         if op == "packwrite":
             return "OpPackWrite %s %s" % (ids(c["ids"]), coq_bool(c.get("promisor", False)))
         if op == "setref":
